@@ -36,7 +36,7 @@ SIGNATURES
       TLC simulation of LzDecoder.tla with KeepHist = TRUE; a behaviour is the list of history entries
       ["read",k,n] / ["lit",id] / ["match",dist,len] / ["bad",dist] / ["chunk",kind,u,reset,ids] / ["end"] / ["marker"] / ["total",t].
   lzdecoder_replay(ctx, kind, consts, n_behaviours, seed, name="", sig_base=None, features=None, target=None,
-                   behaviours=None) -> dict
+                   behaviours=None, scale=1) -> dict      (scale: see behaviour_to_job)
       Strict replay of LzDecoder.tla: TLC (simulation mode) chooses symbol scripts AND read sizes; every behaviour
       is forged into a real stream, cross-checked with liblzma, and read through the real LZMAReader /
       LZMA2Reader with exactly the scripted read sizes; per call the number of bytes, the bytes themselves and the
@@ -226,40 +226,60 @@ def forge_stream(script_job):
 _LIT_BYTE = lambda i: (i * 37 + 11) % 256      # value id -> byte
 
 
-def behaviour_to_job(beh, kind, B, jid, lc=3, lp=0, pb=2):
+def behaviour_to_job(beh, kind, B, jid, lc=3, lp=0, pb=2, scale=1):
     """beh: list of history entries printed by LzDecoder.tla (see H / H2 there). Returns the pieces of a forge job:
-    (read sizes, expected per-call results, lzma script, lzma2 chunks, bad distance or None)."""
+    (read sizes, expected per-call results, lzma script, lzma2 chunks, bad distance or None).
+    scale > 1 realises the behaviour on a ring `scale` times larger: every model byte becomes `scale` real bytes (a
+    literal -> scale literals, match(d, l) -> distance scale*(d+1)-1 and length scale*l in pieces of <= 273 bytes, read
+    sizes and chunk sizes multiplied): all ring positions at model-symbol boundaries are multiples of `scale`, so the
+    ring wraps, matches split across reads etc. exactly where the model's do (used since LZMA2Reader raises
+    dictionaries below 4 KiB to 4 KiB: model ring 16 x scale 256 = the real minimum ring)."""
     reads, expect = [], []
     script, chunks, cur = [], [], None
     bad = None
     need_props, after_raw, nl = True, False, 0
     reps, nm = [0, 0, 0, 0], 0
+
+    def out():
+        return cur["syms"] if cur is not None else script
+
     for h in beh:
         t = h[0]
         if t == "read":
-            reads.append(h[1])
-            expect.append({"k": h[1], "n": h[2]})
+            reads.append(h[1] * scale)
+            expect.append({"k": h[1] * scale, "n": h[2] * scale if h[2] >= 0 else -1})
         elif t == "lit":
-            (cur["syms"] if cur is not None else script).append(["lit", _LIT_BYTE(h[1])])
+            for j in range(scale):
+                out().append(["lit", _LIT_BYTE(h[1] * scale + j)])
         elif t == "match":
             # the ring does not care whether a distance is coded as a normal match or as a repeated match: use the
             # rep coding for every second match whose distance is among the four most recent ones (symbol variety)
             nm += 1
-            if h[1] in reps and nm % 2 == 0:
-                i = reps.index(h[1])
-                (cur["syms"] if cur is not None else script).append(["rep", i, h[2]])
+            D, L = scale * (h[1] + 1) - 1, scale * h[2]
+            pieces, rest = [], L
+            while rest > 0:                      # pieces of at most 273 bytes (they straddle the scaled read limits)
+                p_ = min(273, rest) if scale > 1 else rest
+                if rest - p_ == 1:
+                    p_ -= 1
+                pieces.append(p_)
+                rest -= p_
+            if D in reps and nm % 2 == 0:
+                i = reps.index(D)
+                out().append(["rep", i, pieces[0]])
                 reps.insert(0, reps.pop(i))
             else:
-                (cur["syms"] if cur is not None else script).append(["match", h[1], h[2]])
-                reps = [h[1]] + reps[:3]
+                out().append(["match", D, pieces[0]])
+                reps = [D] + reps[:3]
+            for p_ in pieces[1:]:
+                out().append(["rep", 0, p_])
         elif t == "bad":
-            (cur["syms"] if cur is not None else script).append(["match", h[1], 2])
-            bad = h[1]
+            bad = scale * (h[1] + 1) - 1
+            out().append(["match", bad, 2])
         elif t == "chunk":
             reset = bool(h[3])
             if h[1] == "U":
                 cur = None
-                chunks.append({"t": "raw", "data": [_LIT_BYTE(i) for i in h[4]], "dict_reset": reset})
+                chunks.append({"t": "raw", "data": [_LIT_BYTE(i * scale + j) for i in h[4] for j in range(scale)], "dict_reset": reset})
                 if reset:
                     need_props = True
                 after_raw = True
@@ -299,7 +319,7 @@ def lzdecoder_behaviours(ctx, consts, n, seed, depth=400, name=""):
     return hs
 
 
-def lzdecoder_replay(ctx, kind, consts, n_behaviours, seed, name="", sig_base=None, features=None, target=None, behaviours=None):
+def lzdecoder_replay(ctx, kind, consts, n_behaviours, seed, name="", sig_base=None, features=None, target=None, behaviours=None, scale=1):
     B = int(consts["B"])
     hs = behaviours if behaviours is not None else lzdecoder_behaviours(ctx, consts, n_behaviours, seed, name=name)
     if not hs:
@@ -311,8 +331,8 @@ def lzdecoder_replay(ctx, kind, consts, n_behaviours, seed, name="", sig_base=No
         if key in seen:
             continue
         seen.add(key)
-        reads, expect, script, chunks, bad = behaviour_to_job(beh, kind, B, i)
-        j = {"op": "forge", "id": f"{name}-{i}", "fmt": kind, "lc": 3, "lp": 0, "pb": 2, "dict": B, "reads": reads, "cyclic": False}
+        reads, expect, script, chunks, bad = behaviour_to_job(beh, kind, B, i, scale=scale)
+        j = {"op": "forge", "id": f"{name}-{i}", "fmt": kind, "lc": 3, "lp": 0, "pb": 2, "dict": B * scale, "reads": reads, "cyclic": False}
         if kind == "lzma2":
             ended = any(h[0] == "end" for h in beh)
             j.update({"chunks": chunks, "terminate": ended})
@@ -320,7 +340,7 @@ def lzdecoder_replay(ctx, kind, consts, n_behaviours, seed, name="", sig_base=No
             known = consts.get("SizeKnown") == "TRUE"
             total = sum(1 if s[0] == "lit" else s[2] for s in script if not (bad is not None and s is script[-1]))
             j.update({"script": script, "marker": any(h[0] == "marker" for h in beh), "size_known": known,
-                      "size": [h for h in beh if h[0] == "total"][0][1] if known else 0, "dict": 4096})
+                      "size": [h for h in beh if h[0] == "total"][0][1] * scale if known else 0, "dict": 4096})
         jobs.append(j)
         meta.append((beh, expect, bad))
     res = run_sym_jobs(jobs, features=features, target=target)
@@ -481,12 +501,13 @@ def selftest(n=12, seed=1):
         def note_tlc(self, *a):
             pass
     c = Ctx()
-    for name, kind, extra in (("lz2", "lzma2", {"B": "16", "MaxStream": "44", "AllowBad": "TRUE"}),
-                              ("lz1m", "lzma", {"B": "64", "MaxStream": "40", "AllowBad": "FALSE"})):
+    for name, kind, extra, scale in (("lz2w", "lzma2", {"B": "16", "MaxStream": "44", "AllowBad": "TRUE"}, 256),
+                                     ("lz2", "lzma2", {"B": "64", "MaxStream": "44", "AllowBad": "TRUE"}, 1),
+                                     ("lz1m", "lzma", {"B": "64", "MaxStream": "40", "AllowBad": "FALSE"}, 1)):
         consts = {"Kind": f'"{kind}"', "ReadSizes": "{0,1,2,3,5,7,20,50}", "Lens": "{2,3,5,9,17,18}", "ChunkSizes": "{1,2,3,5,8,13,21}",
                   "SizeKnown": "FALSE", "KeepHist": "TRUE"}
         consts.update(extra)
-        st = lzdecoder_replay(c, kind, consts, 60, seed + 5, name=name)
+        st = lzdecoder_replay(c, kind, consts, 60, seed + 5, name=name, scale=scale)
         st.pop("events_runs")
         print("LZDECODER-REPLAY", name, st)
     for w in c.v[:3]:
